@@ -265,6 +265,20 @@ LIMITS_QUICK = [(10000, BIG), (1, BIG), (10000, 2)]
 LIMITS_FULL = [(d, n) for d in (1, 2, 10000) for n in (1, 2, 3, BIG)]
 
 
+RENDER = {}
+
+
+def expected_rendering(root, nbrs, maxdepth, maxnodes):
+    """how a single-root graph is shown: as a table of the first hop when that hop alone exceeds the node limit,
+    otherwise as a drawing of the hops that fit (nothing when there is only the root)."""
+    hop1 = sorted({m for (m, e) in nbrs(root) if m != root})
+    if hop1 and len(hop1) + 1 > maxnodes:
+        # one row per relation of the root (two relations with the same entity = two rows; a self-reference shows the root itself)
+        return ("table", sorted(m.split("~", 1)[-1] for (m, e) in nbrs(root)))
+    added, _ = bfs(root, nbrs, maxdepth, maxnodes)
+    return ("svg" if len(added) > 1 else "none", [])
+
+
 def graphs_of(r, family):
     """{(owner ident, graph kind): (nodes, edges)} for every graph object FORD built."""
     out = {}
@@ -281,11 +295,22 @@ def graphs_of(r, family):
             g = getattr(e, attr, None)
             if g is not None and hasattr(g, "dot"):
                 out[(ident, attr)] = parse_dot(g.dot.source)
+                try:
+                    html = str(g)
+                except Exception as e:  # noqa
+                    html = f"<error {type(e).__name__}>"
+                kind = "table" if 'class="root"' in html else ("svg" if "<svg" in html else ("error" if html.startswith("<error") else "none"))
+                labels = sorted(x.strip() for x in re.findall(r'class="node"[^>]*>(?:<a [^>]*>)?([^<]+)', html) if x.strip()) if kind == "table" else []
+                RENDER[(ident, attr)] = (kind, labels)
     return out
+
+
+EXPREND = {}
 
 
 def expected_graphs(family, rel, maxdepth, maxnodes):
     exp = {}
+    EXPREND.clear()
     if family == "modules":
         U, A = rel["uses"], rel["anc"]
         fwd = lambda n: [(b, (a, b, "dashed")) for (a, b) in sorted(U) if a == n] + [(b, (a, b, "solid")) for (a, b) in sorted(A) if a == n]  # noqa
@@ -293,6 +318,7 @@ def expected_graphs(family, rel, maxdepth, maxnodes):
         roots = sorted(rel["nodes"]) + sorted({a for (a, b) in U if a.startswith(("program~", "proc~"))})
         for n in roots:
             exp[(n, "usesgraph")] = bfs(n, fwd, maxdepth, maxnodes)
+            EXPREND[(n, "usesgraph")] = expected_rendering(n, fwd, maxdepth, maxnodes)
             if n.startswith("module~") and not n.startswith("module~s"):
                 exp[(n, "usedbygraph")] = bfs(n, inv, maxdepth, maxnodes)
             elif n.startswith("module~s"):
@@ -306,6 +332,8 @@ def expected_graphs(family, rel, maxdepth, maxnodes):
         for n in sorted(rel["nodes"]):
             exp[(n, "inhergraph")] = bfs(n, fwd, maxdepth, maxnodes)
             exp[(n, "inherbygraph")] = bfs(n, inv, maxdepth, maxnodes)
+            EXPREND[(n, "inhergraph")] = expected_rendering(n, fwd, maxdepth, maxnodes)
+            EXPREND[(n, "inherbygraph")] = expected_rendering(n, inv, maxdepth, maxnodes)
         exp[("project:type", "")] = (set(rel["nodes"]), {(a, b, "dashed") for (a, b) in C} | {(a, b, "solid") for (a, b) in E})
     else:
         K, I = rel["calls"], rel["iface"]
@@ -314,8 +342,10 @@ def expected_graphs(family, rel, maxdepth, maxnodes):
         allnodes = set(rel["nodes"]) | {x for e in K for x in e}
         for n in sorted(allnodes):
             exp[(n, "callsgraph")] = bfs(n, fwd, maxdepth, maxnodes)
+            EXPREND[(n, "callsgraph")] = expected_rendering(n, fwd, maxdepth, maxnodes)
             if not n.startswith("program~"):
                 exp[(n, "calledbygraph")] = bfs(n, inv, maxdepth, maxnodes)
+                EXPREND[(n, "calledbygraph")] = expected_rendering(n, inv, maxdepth, maxnodes)
         exp[("project:call", "")] = (allnodes, {(a, b, "solid") for (a, b) in K} | {(a, b, "dashed") for (a, b) in I})
     return exp
 
@@ -346,6 +376,7 @@ def run_case(st: Stats, case, limits, nograph=None, ppar=False, entmeta=None):
                 st.violation("ford-failed", stratum, feats, inp, (repr(r.error) + " " + r.log[-300:]).strip(), "graphs are built")
                 st.stratum(stratum, 1)
                 continue
+            RENDER.clear()
             got = graphs_of(r, family)
             st.states.add(core.digest(sorted((k, sorted(v[0]), sorted(set(v[1]))) for k, v in got.items())))
             bad = 0
@@ -395,6 +426,15 @@ def run_case(st: Stats, case, limits, nograph=None, ppar=False, entmeta=None):
                     bad += 1
                     st.violation("wrong-edge-set", stratum, dict(feats, graph=key[1] or key[0], extra=str(sorted(ge - set(we))[:3]), missing=str(sorted(set(we) - ge)[:3])), inp,
                                  dict(graph=list(key), edges=sorted(ge)), sorted(we))
+            if not entmeta and not ppar:
+                for key, want_r in EXPREND.items():
+                    got_r = RENDER.get(key)
+                    if got_r is None or key not in got:
+                        continue
+                    if got_r[0] != want_r[0] or (want_r[0] == "table" and got_r[1] != want_r[1]):
+                        bad += 1
+                        st.violation("wrong-rendering", stratum, dict(feats, graph=key[1], shown=got_r[0], expected_shown=want_r[0]), inp,
+                                     dict(graph=list(key), shown=got_r[0], table_rows=got_r[1]), dict(shown=want_r[0], table_rows=want_r[1]))
             st.stratum(stratum, bad)
             if len(st.samples) < 2 and family == "procs" and len(case[1]) == 3:
                 st.sample(dict(case=inp["case"], limits=[maxdepth, maxnodes], graphs={f"{k[0]}:{k[1]}": dict(nodes=sorted(v[0]), edges=sorted(set(v[1]))) for k, v in list(got.items())[:3]}))
